@@ -11,10 +11,22 @@ use tracing::Span;
 
 /// A data structure that tracks in-flight requests. It aborts requests,
 /// either on demand or when a request deadline expires.
-#[derive(Debug, Default)]
+#[derive(Debug)]
 pub struct InFlightRequests {
     request_data: FnvHashMap<u64, RequestData>,
     deadlines: DelayQueue<u64>,
+    /// When `deadlines` was created.
+    deadlines_created: tokio::time::Instant,
+}
+
+impl Default for InFlightRequests {
+    fn default() -> Self {
+        Self {
+            request_data: Default::default(),
+            deadlines: Default::default(),
+            deadlines_created: tokio::time::Instant::now(),
+        }
+    }
 }
 
 /// Data needed to clean up a single in-flight request.
@@ -24,6 +36,8 @@ struct RequestData {
     abort_handle: AbortHandle,
     /// The key to remove the timer for the request's deadline.
     deadline_key: delay_queue::Key,
+    /// When the armed timer fires.
+    timer_deadline: tokio::time::Instant,
     /// How much of the time until the deadline is not yet covered by the armed timer.
     beyond_timer: Duration,
     /// The client span.
@@ -54,15 +68,18 @@ impl InFlightRequests {
         deadline: Instant,
         span: Span,
     ) -> Result<AbortRegistration, AlreadyExistsError> {
+        self.renew_deadlines();
         match self.request_data.entry(request_id) {
             hash_map::Entry::Vacant(vacant) => {
                 let timeout = deadline.time_until();
                 let timer_span = timeout.min(MAX_TIMER_SPAN);
                 let (abort_handle, abort_registration) = AbortHandle::new_pair();
-                let deadline_key = self.deadlines.insert(request_id, timer_span);
+                let timer_deadline = tokio::time::Instant::now() + timer_span;
+                let deadline_key = self.deadlines.insert_at(request_id, timer_deadline);
                 vacant.insert(RequestData {
                     abort_handle,
                     deadline_key,
+                    timer_deadline,
                     beyond_timer: timeout - timer_span,
                     span,
                 });
@@ -70,6 +87,24 @@ impl InFlightRequests {
             }
             hash_map::Entry::Occupied(_) => Err(AlreadyExistsError),
         }
+    }
+
+    /// A `DelayQueue` can only arm a timer that lies less than 2^36 ms (about 2.2 years) past the
+    /// point its timer wheel last advanced to, and the wheel only advances when a timer fires. On
+    /// a connection that stays open long enough without a deadline expiring, a new timer would
+    /// be out of that range; so once the queue is older than a single timer can span, the
+    /// pending timers move to a fresh queue.
+    fn renew_deadlines(&mut self) {
+        if self.deadlines_created.elapsed() < MAX_TIMER_SPAN {
+            return;
+        }
+        let mut deadlines = DelayQueue::with_capacity(self.request_data.len());
+        for (request_id, request_data) in &mut self.request_data {
+            request_data.deadline_key =
+                deadlines.insert_at(*request_id, request_data.timer_deadline);
+        }
+        self.deadlines = deadlines;
+        self.deadlines_created = tokio::time::Instant::now();
     }
 
     /// Cancels an in-flight request. Returns true iff the request was found.
@@ -118,8 +153,10 @@ impl InFlightRequests {
                     // The deadline was further away than a single timer can span.
                     let timer_span = request_data.beyond_timer.min(MAX_TIMER_SPAN);
                     request_data.beyond_timer -= timer_span;
-                    request_data.deadline_key =
-                        self.deadlines.insert(*expired.get_ref(), timer_span);
+                    request_data.timer_deadline = tokio::time::Instant::now() + timer_span;
+                    request_data.deadline_key = self
+                        .deadlines
+                        .insert_at(*expired.get_ref(), request_data.timer_deadline);
                     return Some(expired.into_inner());
                 }
             }
